@@ -95,7 +95,12 @@ def to_lines(sim):
             elif what == "slot":
                 lines.append("ev %d slot %d" % (t, e[3]))
             elif what == "write":
-                lines.append("ev %d write %d %d %s" % (t, e[3], e[4], _b(e[5])))
+                tw = e[5]
+                if sim.kind == "hasseb":
+                    # the hasseb driver writes a send-twice frame twice; the model's frame keeps the flag
+                    ent = sim.frames.get((e[3], e[4]))
+                    tw = bool(ent[2].sendtwice) if ent else False
+                lines.append("ev %d write %d %d %s" % (t, e[3], e[4], _b(tw)))
             elif what == "done":
                 r = e[3] if e[3] != "err" else "err:" + str(e[4])
                 lines.append("ev %d done %s" % (t, r))
